@@ -5,7 +5,9 @@ from . import core
 THEOREMS = ['C16.parse_blank', 'C16.parse_comment_only', 'C16.parse_no_equals', 'C16.f8_hex_before_float',
             'C16.string_both_dialects', 'C16.string_with_hash_and_comment', 'C16.malformed_instances',
             'C16.prot_unknown_key', 'C16.setKey_overwrites', 'C16.setKey_other', 'C16.protLoop_error',
-            'C16.strip_sandwich', 'C16.find_first']
+            'C16.strip_sandwich', 'C16.find_first',
+            'C16.parse_render_number', 'C16.parse_render_string', 'C16.parseNumber_dec', 'C16.parseNumber_hex',
+            'C16.parseNumber_float', 'C16.parseNumber_point', 'C16.protLoop_ok', 'C16.parseProt_render']
 
 D2, D1 = '""', '"'
 
